@@ -218,6 +218,18 @@ def fromOctets (bs : Bytes) : Outcome Bytes :=
 
 /-! ### accessors (open.rs:85-246) on the bytes of a message, checked or not -/
 
+/-! The fixed offsets of the accessors, as open.rs writes them: `const COFF: usize = 19` and `COFF+k`.  Scoped
+notations for numerals (not `abbrev`s: `omega` / `simp` in the proofs see the numeral itself), one per expression of
+the source; `Rc.Thm.C03.model_constants_agree` ties each to `Rc.Gen.openCoff + k` (regenerated from the source). -/
+scoped notation "COFF" => (19 : Nat)
+scoped notation "COFF_1" => (20 : Nat)
+scoped notation "COFF_2" => (21 : Nat)
+scoped notation "COFF_3" => (22 : Nat)
+scoped notation "COFF_4" => (23 : Nat)
+scoped notation "COFF_5" => (24 : Nat)
+scoped notation "COFF_9" => (28 : Nat)
+scoped notation "COFF_10" => (29 : Nat)
+
 /-- header().length(): `range(..19)` then bytes 16, 17 -/
 def length (m : Bytes) : Outcome Nat := do
   let h ← slice m 0 19
@@ -225,21 +237,21 @@ def length (m : Bytes) : Outcome Nat := do
   let b ← idx h 17
   pure (a.toNat * 256 + b.toNat)
 
-def version (m : Bytes) : Outcome UInt8 := idx m 19
+def version (m : Bytes) : Outcome UInt8 := idx m COFF
 
 def asn2 (m : Bytes) : Outcome Nat := do
-  let a ← idx m 20
-  let b ← idx m 21
+  let a ← idx m COFF_1
+  let b ← idx m COFF_2
   pure (a.toNat * 256 + b.toNat)
 
 def holdtime (m : Bytes) : Outcome Nat := do
-  let a ← idx m 22
-  let b ← idx m 23
+  let a ← idx m COFF_3
+  let b ← idx m COFF_4
   pure (a.toNat * 256 + b.toNat)
 
-def identifier (m : Bytes) : Outcome Bytes := slice m 24 28
+def identifier (m : Bytes) : Outcome Bytes := slice m COFF_5 COFF_9
 
-def optParmLen (m : Bytes) : Outcome UInt8 := idx m 28
+def optParmLen (m : Bytes) : Outcome UInt8 := idx m COFF_9
 
 structure Param where
   typ : UInt8
@@ -261,10 +273,10 @@ def paramsIter : Nat → Bytes → Lazy Param
 /-- mirrors open.rs:131 `parameters_iter`: `advance(COFF+10).unwrap()`,
 `parse_parser(opt_parm_len).unwrap()` -/
 def parameters (m : Bytes) : Outcome (Lazy Param) :=
-  match takeN 29 m with
+  match takeN COFF_10 m with
   | none => .panic
   | some (_, r) =>
-    match idx m 28 with
+    match idx m COFF_9 with
     | .ok opl =>
       match takeN opl.toNat r with
       | some (ps, _) => .ok (paramsIter ps.length ps)
